@@ -72,6 +72,7 @@ def build_subject(quiet=True) -> Path:
         th = _tree_hash()
         bindir = CACHE / f"subject-{th}" / "bin"
         if (bindir / "redo").exists() and (bindir / ".ok").exists():
+            ensure_shims_unlocked()
             return bindir
         tdir = CACHE / "target"
         cmd = ["cargo", "build", "--offline", "--manifest-path", str(REPO / "Cargo.toml"),
@@ -97,7 +98,38 @@ def build_subject(quiet=True) -> Path:
                 lnk.unlink()
             lnk.symlink_to("redo")
         (bindir / ".ok").write_text(th)
+        ensure_shims_unlocked()
         return bindir
+
+
+def ensure_shims_unlocked():
+    sh = VERIF / "shim"
+    for out, src in (("crashshim.so", "crashshim.c"), ("vgate", "vgate.c")):
+        o, s_ = sh / out, sh / src
+        if s_.exists() and (not o.exists() or o.stat().st_mtime < s_.stat().st_mtime):
+            p = subprocess.run(["make", "-C", str(sh), "-s"], stdout=subprocess.PIPE, stderr=subprocess.STDOUT, text=True)
+            if p.returncode != 0:
+                sys.stderr.write(p.stdout[-2000:])
+                raise MachineryError("building the C shims failed")
+            return
+
+
+def ensure_shims():
+    """(Re)build shim/crashshim.so and shim/vgate when missing or older than their sources."""
+    sh = VERIF / "shim"
+    need = False
+    for out, src in (("crashshim.so", "crashshim.c"), ("vgate", "vgate.c")):
+        o, s_ = sh / out, sh / src
+        if s_.exists() and (not o.exists() or o.stat().st_mtime < s_.stat().st_mtime):
+            need = True
+    if need:
+        CACHE.mkdir(parents=True, exist_ok=True)
+        with open(CACHE / "build.lock", "w") as lk:
+            fcntl.flock(lk, fcntl.LOCK_EX)
+            p = subprocess.run(["make", "-C", str(sh), "-s"], stdout=subprocess.PIPE, stderr=subprocess.STDOUT, text=True)
+            if p.returncode != 0:
+                sys.stderr.write(p.stdout[-2000:])
+                raise MachineryError("building the C shims failed")
 
 
 def build_harness(quiet=True) -> Path:
